@@ -244,15 +244,20 @@ def check_from_str(chk, cfg, b):
         t = p.ret
         if state == "err":
             # the parser's own error: from_residual(Break(..)) of `?`, or Err(e) rebuilt from R's Err payload
-            via_q = an.is_call(t, re.compile(r"::from_residual$")) and "Break" in show(t[2][0])
+            BRt = ("call", "<std::result::Result<seq::Seq<A>, error::ParseBioError> as std::ops::Try>::branch", (R,), None)
+            via_q = an.is_call(t, re.compile(r"::from_residual$")) and len(t[2]) == 1 and isinstance(t[2][0], tuple) and t[2][0][0] == "F" and \
+                t[2][0][1][:1] == ("downcast",) and same(t[2][0][1][1], BRt) and t[2][0][1][3] == "Break"
             k, pay = opt_kind(t)
-            rebuilt = k == "Err" and isinstance(pay, tuple) and pay[0] in ("F", "proj", "field") and "Err" in show(pay) and show(R) in show(pay)
+            rebuilt = k == "Err" and isinstance(pay, tuple) and pay[0] == "F" and pay[1][:1] == ("downcast",) and same(pay[1][1], R) and pay[1][3] == "Err"
             good = good and (via_q or rebuilt)
             seen_res = True
         elif state == "ok" and an.is_call(t, re.compile(r"^<kmer::Kmer<A, K, S> as std::convert::TryFrom<&seq::slice::SeqSlice<A>>>::try_from$")):
             a = t[2][0]
             # argument: content of the parsed sequence (the Ok / Continue payload of R)
-            good = good and a[0] == "seqview" and show(R) in show(a) and ("Continue" in show(a) or " as Ok)" in show(a))
+            BRt = ("call", "<std::result::Result<seq::Seq<A>, error::ParseBioError> as std::ops::Try>::branch", (R,), None)
+            inner = a[1] if a[0] == "seqview" else None
+            good = good and isinstance(inner, tuple) and inner[0] == "F" and inner[1][:1] == ("downcast",) and \
+                ((same(inner[1][1], R) and inner[1][3] == "Ok") or (same(inner[1][1], BRt) and inner[1][3] == "Continue"))
             seen_ok = True
         else:
             good = False
